@@ -8,7 +8,10 @@ import (
 
 // PatByte is byte i (0-based) of the position-dependent pattern stream `seed` (DESIGN.md 3.2).
 // Any offset, ordering, duplication or compaction error changes the content.
-func PatByte(seed, i int) byte { return byte(i*131 + (i >> 8) + seed*17) }
+func PatByte(seed, i int) byte {
+	q := i & 255
+	return byte(q*q*7 + i*131 + (i >> 8) + seed*17)
+}
 
 // PatFill fills b with the pattern starting at stream offset off.
 func PatFill(b []byte, seed, off int) {
